@@ -62,7 +62,12 @@ class InProcessExecutor:
             # as in a real pool, the arguments reach the worker as a pickled copy and the result comes back as one
             f.set_result(pickle.loads(pickle.dumps(fn(*pickle.loads(pickle.dumps(a))))))
         except Exception as e:  # noqa
-            f.set_exception(e)
+            # an exception travels back pickled as well; one that cannot be rebuilt breaks the pool for every pending item
+            try:
+                f.set_exception(pickle.loads(pickle.dumps(e)))
+            except Exception:  # noqa
+                from concurrent.futures.process import BrokenProcessPool
+                f.set_exception(BrokenProcessPool("A process in the process pool was terminated abruptly while the future was running or pending."))
         return f
 
 
@@ -177,6 +182,7 @@ CONFIGS = {
                                           "magic-numbers:\n  max_small_integer: 10\n  python:\n    allowed_numbers: [7001, 7002]\n", None),
     "language-sections-typescript-stricter": ("nesting:\n  max_nesting_depth: 4\n  typescript:\n    max_nesting_depth: 2\n  rust:\n    max_nesting_depth: 9\n"
                                               "srp:\n  max_methods: 7\n  typescript:\n    max_methods: 3\n", None),
+    "non-numeric-threshold-in-project-config": ("nesting:\n  max_nesting_depth: \"3\"\nsrp:\n  max_methods: many\n", None),
     "project-ignore-list": ("ignore:\n  - 'src/extra1*.py'\n  - 'src/strg2.py'\ndry:\n  enabled: true\n", None),
 }
 
